@@ -105,6 +105,17 @@ def run(ctx):
         docs.append((d, alltypes, "Order", dv, msg, "member-order-permutation"))
     ctx.exhaustive["all 24 member orders of a 4-member primary type with shared dependencies"] = True
 
+    # member descriptors and the document itself may carry further JSON keys (`internalType`, `indexed`, `comment`, `$schema`):
+    # they are not part of any type, the document is the same document
+    def with_extra_keys(text):
+        o = json.loads(text)
+        for ms in o["types"].values():
+            for k_, m_ in enumerate(ms):
+                if isinstance(m_, dict):
+                    m_[rng.choice(["internalType", "indexed", "comment", "Name", "TYPE", "components"])] = rng.choice([m_.get("type", "x"), True, None, 1, [], {"name": "x"}])
+        o[rng.choice(["$schema", "version", "comment", "PrimaryType", "types "])] = rng.choice(["x", 1, None, {"domain": {}}])
+        return json.dumps(o, ensure_ascii=False)
+    docs += [(with_extra_keys(d), at, pr, dv, msg, cls + "/extra-json-keys") for (d, at, pr, dv, msg, cls) in docs[1::5]]
     # a third of the documents again with some characters of their strings written as \\uXXXX escapes (same document)
     docs += [(escape_json_strings(d, rng), at, pr, dv, msg, cls + "/escaped-spelling") for (d, at, pr, dv, msg, cls) in docs[::3]]
     impl = ctx.harness([("typeddata", d) for d, *_ in docs] + [("typeddata", MAIL)])
